@@ -370,13 +370,67 @@ class P(Property):
             out.append('send.trl h=%s' % fl(h))
         return out
 
+    def gen_long(self, tier, rng):
+        """a bad byte at the first / middle / last position of long names (around http's 64-byte scratch buffer and its
+        65535 limit), long values with a bad last byte; pure and end to end"""
+        out = []
+        base = self.base_msgs()
+        bad = [b'"', b'A', b' ', b'(', b'\x7f', b'\x80', b':', b'\x00']
+        for L in (63, 64, 65, 66, 200, 65535):
+            for c in (bad if L < 1000 else bad[:2]):
+                for pos in (0, L // 2, L - 1):
+                    n = b'a' * pos + c + b'a' * (L - pos - 1)
+                    for k in ('req', 'resp', 'trl'):
+                        out.append('hdr.%s %s' % (k, fl(base[k] + [(n, b'v')])))
+                        out.append('hdr.%s %s' % (k, fl([(n, b'v')] + base[k])))
+            for k in ('req', 'resp', 'trl'):
+                out.append('hdr.%s %s' % (k, fl(base[k] + [(b'a' * L, b'v')])))
+                out.append('hdr.%s %s' % (k, fl(base[k] + [(b'a' * (L - 1) + b'-', b'v')])))
+        for L in (64, 200, 70000):
+            for c in (b'\x00', b'\n', b'\r', b'\x7f', b'\x1f', b'\t', b'\xff')[:(7 if L < 1000 else 2)]:
+                for pos in (0, L - 1):
+                    v = b'v' * pos + c + b'v' * (L - pos - 1)
+                    for k in ('req', 'resp', 'trl'):
+                        out.append('hdr.%s %s' % (k, fl(base[k] + [(b'n', v)])))
+                    out.append('hdr.req %s' % fl([(b':method', b'GET'), (b':scheme', b'https'), (b':authority', b'h'), (b':path', b'/#' + v)]))
+        return out
+
+    @staticmethod
+    def to_e2e(case):
+        w = case.split()
+        if w[0] in ('hdr.req', 'hdr.resp'):
+            return ['e2e.' + w[0][4:] + ' ' + w[1]]
+        if w[0] == 'hdr.trl':
+            return ['e2e.trl srv ' + w[1], 'e2e.trl cli ' + w[1]]
+        if w[0] == 'hdr.many':
+            kinds = ['trl.srv', 'trl.cli'] if w[1] == 'trl' else [w[1]]
+            return ['e2e.many %s %s' % (k, ' '.join(w[2:])) for k in kinds]
+        if w[0] == 'send.req':
+            return ['wire.req ' + ' '.join(w[1:])]
+        if w[0] == 'send.resp':
+            return ['wire.resp ' + ' '.join(w[1:])]
+        if w[0] == 'send.trl':
+            return ['wire.trl srv ' + w[1], 'wire.trl cli ' + w[1]]
+        return []
+
+    def corpus(self):
+        # every corpus line about the pure functions is also run through the real call sites
+        lines = Property.corpus(self)
+        out = []
+        for l in lines:
+            out.append(l)
+            out += self.to_e2e(l)
+        return out
+
     def cases(self, tier, rng):
-        return self.gen_http(tier, rng) + self.gen_hdr(tier, rng) + self.gen_send(tier, rng)
+        pure = self.gen_hdr(tier, rng) + self.gen_long(tier, rng) + self.gen_send(tier, rng)
+        e2e = []
+        for c in pure:
+            e2e += self.to_e2e(c)
+        return self.gen_http(tier, rng) + pure + e2e
 
     # ------------------------------------------------------------------ comparison
     def canon(self, case, out):
-        if case.startswith('hdr.'):
-            return ' '.join(w for w in out.split() if not (w.startswith('code=') or w.startswith('reset=') or w.startswith('stop=')))
         return out
 
     def send_ok(self, case, out):
@@ -443,40 +497,55 @@ class P(Property):
                 return False
         return True
 
-    def spec_ok(self, case, out, spec):
-        fam = case.split()[0]
-        w = out.split()
-        if not w or w[0] in ('panic', 'crash', 'driver-error'):
+    # which codes a refusal must show, per end-to-end family: (StreamError code, RESET_STREAM, STOP_SENDING);
+    # None = not constrained by the statement (the server resets its own send half; a client does not).
+    # e2e.resp: the client puts H3_REQUEST_CANCELLED (268) into STOP_SENDING although it reports H3_MESSAGE_ERROR
+    # (reported to the coordinator; accepted here until decided)
+    RESP_STOP_OK = ('270', '268')
+
+    def refusal_ok(self, fam, kind, w, code):
+        toks = dict(t.split('=', 1) for t in w[1:] if '=' in t)
+        if not fam.startswith('e2e.'):
+            return True                       # the pure functions do not choose codes
+        if toks.get('code') != code:
             return False
-        if fam.startswith('send.'):
-            return self.send_ok(case, out)
+        if kind == 'req':
+            return toks.get('reset') == code and toks.get('stop') == code
+        if kind == 'resp':
+            return toks.get('stop') in self.RESP_STOP_OK
+        return toks.get('stop') == code       # trailers, both roles
+
+    def spec_ok(self, case, out, spec):
+        cw = case.split()
+        fam = cw[0]
+        w = out.split()
+        if not w or w[0] not in ('ok', 'err', 'badinput'):
+            return False                      # panic, crash, hang, connection error, setup failure, ...
+        if fam.startswith('send.') or fam.startswith('wire.'):
+            return self.send_ok('send.' + fam.split('.')[1] + ' ' + ' '.join(a for a in cw[1:] if '=' in a), out)
         if spec is None:
             return True
         sw = spec.split()
+        kind = cw[1].split('.')[0] if fam.endswith('.many') else fam.split('.')[1]
+        if w[0] == 'err' and not self.refusal_ok(fam, kind, w, str(270)):
+            return False                      # every refusal, of a malformed or of a well-formed section, is H3_MESSAGE_ERROR
         if sw[0] == 'any':
             return w[0] in ('ok', 'err')
         if sw[0] == 'refuse':
-            if w[0] != 'err':
-                return False
-            for tok in w[1:]:
-                if tok.startswith('code=') and tok[5:] != sw[1]:
-                    return False
-                if fam in ('hdr.req',) and (tok.startswith('reset=') or tok.startswith('stop=')) and tok.split('=')[1] != sw[1]:
-                    return False
-                if fam in ('hdr.trl',) and tok.startswith('stop=') and tok.split('=')[1] != sw[1]:
-                    return False
-            return True
+            return w[0] == 'err' and (not fam.startswith('e2e.') or self.refusal_ok(fam, kind, w, sw[1]))
         return False
 
     def nontrivial_key(self, case, impl_out):
         w = case.split()
-        if w[0].startswith('hdr.') or w[0].startswith('http.'):
-            return case if w[-1] != '-' or w[0] == 'hdr.many' else None
+        if w[0].startswith('hdr.') or w[0].startswith('http.') or w[0].startswith('e2e.'):
+            return case if w[-1] != '-' or w[0].endswith('.many') else None
         return case
 
     def shrink_candidates(self, case):
         w = case.split()
-        if w[0] in ('hdr.req', 'hdr.resp', 'hdr.trl'):
+        if w[0] in ('hdr.req', 'hdr.resp', 'hdr.trl', 'e2e.req', 'e2e.resp', 'e2e.trl'):
+            if w[0] == 'e2e.trl':
+                w = [w[0] + ' ' + w[1], w[2]]
             fs = unfl(w[1])
             out = []
             for i in range(len(fs)):
